@@ -8,3 +8,191 @@ Proof. unfold lookup_value. intros ->. reflexivity. Qed.
 Lemma ufo_kern_glyph_glyph g1s g2s k a b v :
   kassoc (a, b) k = Some v -> ufo_kern g1s g2s k a b = v.
 Proof. unfold ufo_kern. intros ->. reflexivity. Qed.
+
+(* ------------------------------------------------------------------ *)
+(* one lookup: sorted rules + first definition wins + class subtable last
+   = the most specific rule covering the pair decides *)
+
+Definition covers (r : krule) (a b : str) : bool :=
+  mem a (side_glyphs (k1 r)) && mem b (side_glyphs (k2 r)).
+Definition is_cc (r : krule) : bool := is_class (k1 r) && is_class (k2 r).
+(* 0 glyph-glyph, 1 glyph-class, 2 class-glyph, 3 class-class *)
+Definition kind (r : krule) : nat := (bool_rank (is_class (k1 r)) * 2 + bool_rank (is_class (k2 r)))%nat.
+
+Lemma pair_eqb_refl p : pair_eqb p p = true.
+Proof. unfold pair_eqb. rewrite !str_eqb_refl. reflexivity. Qed.
+
+Lemma pair_eqb_eq p q : pair_eqb p q = true <-> p = q.
+Proof.
+  destruct p as [p1 p2], q as [q1 q2]. unfold pair_eqb. simpl. rewrite andb_true_iff, !str_eqb_eq.
+  split; [intros [-> ->]; reflexivity|intro H; inversion H; auto].
+Qed.
+
+Lemma kassoc_app k l1 l2 :
+  kassoc k (l1 ++ l2) = match kassoc k l1 with Some v => Some v | None => kassoc k l2 end.
+Proof.
+  induction l1 as [|[k' v] l1 IH]; simpl; [reflexivity|]. destruct (pair_eqb k k'); [reflexivity|exact IH].
+Qed.
+
+Lemma kassoc_map_const a b v l :
+  kassoc (a, b) (map (fun y => ((a, y), v)) l) = if mem b l then Some v else None.
+Proof.
+  induction l as [|y l IH]; simpl; [reflexivity|]. unfold pair_eqb at 1. simpl. rewrite str_eqb_refl. simpl.
+  destruct (str_eqb b y); simpl; [reflexivity|exact IH].
+Qed.
+
+Lemma kassoc_map_other a x b v l : str_eqb a x = false ->
+  kassoc (a, b) (map (fun y => ((x, y), v)) l) = None.
+Proof.
+  intro H. induction l as [|y l IH]; simpl; [reflexivity|]. unfold pair_eqb at 1. simpl. rewrite H. simpl. exact IH.
+Qed.
+
+Lemma kassoc_expand r a b :
+  kassoc (a, b) (expand r) = if negb (is_cc r) && covers r a b then Some (kv r) else None.
+Proof.
+  unfold expand, is_cc, covers. destruct (is_class (k1 r) && is_class (k2 r)); [reflexivity|]. simpl.
+  induction (side_glyphs (k1 r)) as [|x xs IH]; simpl; [reflexivity|].
+  rewrite kassoc_app. destruct (str_eqb a x) eqn:E.
+  - apply str_eqb_eq in E. subst x. rewrite kassoc_map_const. simpl.
+    destruct (mem b (side_glyphs (k2 r))); [reflexivity|]. rewrite IH.
+    destruct (mem a xs); reflexivity.
+  - rewrite (kassoc_map_other a x b _ _ E). simpl. exact IH.
+Qed.
+
+Lemma kassoc_flat_expand rules a b :
+  kassoc (a, b) (flat_map expand rules) =
+  option_map kv (find (fun r => negb (is_cc r) && covers r a b) rules).
+Proof.
+  induction rules as [|r rules IH]; simpl; [reflexivity|].
+  rewrite kassoc_app, kassoc_expand. destruct (negb (is_cc r) && covers r a b); [reflexivity|exact IH].
+Qed.
+
+(* class-class rules come last in a kind-sorted list *)
+Definition kind_sorted (l : list krule) : Prop := Sorted (fun r s => (kind r <= kind s)%nat) l.
+
+Lemma is_cc_kind r : is_cc r = true <-> kind r = 3%nat.
+Proof.
+  unfold is_cc, kind. destruct (is_class (k1 r)), (is_class (k2 r)); simpl; split; intro H; try reflexivity; try discriminate.
+Qed.
+
+Lemma kind_le3 r : (kind r <= 3)%nat.
+Proof. unfold kind. destruct (is_class (k1 r)), (is_class (k2 r)); simpl; lia. Qed.
+
+Lemma kind_sorted_tail_cc r l : kind_sorted (r :: l) -> is_cc r = true -> forall s, In s l -> is_cc s = true.
+Proof.
+  intros Hs Hr s Hin. apply Sorted_StronglySorted in Hs; [|red; intros x y z H1 H2; lia].
+  inversion Hs as [|? ? _ Hall]; subst. rewrite Forall_forall in Hall. specialize (Hall s Hin).
+  apply is_cc_kind in Hr. apply is_cc_kind. pose proof (kind_le3 s). lia.
+Qed.
+
+Lemma find_ext_in {A} (f g : A -> bool) l : (forall x, In x l -> f x = g x) -> find f l = find g l.
+Proof.
+  induction l as [|x l IH]; intro H; simpl; [reflexivity|].
+  rewrite (H x (or_introl eq_refl)). destruct (g x); [reflexivity|]. apply IH. intros y Hy. apply H. right. exact Hy.
+Qed.
+
+Lemma find_const_false {A} (l : list A) : find (fun _ => false) l = None.
+Proof. induction l; simpl; auto. Qed.
+
+(* in a kind-sorted lookup the value applied to (a,b) is that of the FIRST rule covering the pair *)
+Theorem lookup_first_cover rules a b :
+  kind_sorted rules ->
+  lookup_value rules a b = match find (fun r => covers r a b) rules with Some r => kv r | None => qc0 end.
+Proof.
+  unfold lookup_value, class_value. rewrite kassoc_flat_expand.
+  induction rules as [|r rules IH]; intro Hs; simpl; [reflexivity|].
+  destruct (covers r a b) eqn:Ec.
+  - destruct (is_cc r) eqn:Ecc; simpl.
+    + (* r is class-class: so is everything after it, nothing specific can precede *)
+      assert (find (fun r0 => negb (is_cc r0) && covers r0 a b) rules = None) as ->.
+      { rewrite (find_ext_in _ (fun _ => false)); [apply find_const_false|].
+        intros s Hin. rewrite (kind_sorted_tail_cc r rules Hs Ecc s Hin). reflexivity. }
+      simpl. unfold is_cc in Ecc. unfold covers in Ec.
+      apply andb_true_iff in Ecc. destruct Ecc as [E1 E2]. apply andb_true_iff in Ec. destruct Ec as [E3 E4].
+      rewrite E1, E2, E3, E4. reflexivity.
+    + reflexivity.
+  - rewrite andb_false_r.
+    assert (is_class (k1 r) && is_class (k2 r) && mem a (side_glyphs (k1 r)) && mem b (side_glyphs (k2 r)) = false) as ->.
+    { unfold covers in Ec. rewrite <- andb_assoc. rewrite Ec. apply andb_false_r. }
+    apply IH. inversion Hs; assumption.
+Qed.
+
+(* ---- the writer's sort puts the rules in kind order ---- *)
+Lemma rule_leb_kind r x : rule_leb r x = true -> (kind r <= kind x)%nat.
+Proof.
+  unfold rule_leb. fold (kind r). fold (kind x).
+  destruct (Nat.ltb_spec (kind r) (kind x)); [lia|].
+  destruct (Nat.ltb_spec (kind x) (kind r)); [discriminate|lia].
+Qed.
+Lemma rule_leb_false_kind r x : rule_leb r x = false -> (kind x <= kind r)%nat.
+Proof.
+  unfold rule_leb. fold (kind r). fold (kind x).
+  destruct (Nat.ltb_spec (kind r) (kind x)); [discriminate|lia].
+Qed.
+
+Lemma insert_rule_In r l x : In x (insert_rule r l) <-> x = r \/ In x l.
+Proof.
+  induction l as [|y l IH]; simpl; [intuition|].
+  destruct (rule_leb r y); simpl; [intuition|]. rewrite IH. intuition.
+Qed.
+
+Lemma insert_rule_sorted r l : kind_sorted l -> kind_sorted (insert_rule r l).
+Proof.
+  unfold kind_sorted. induction l as [|y l IH]; intro Hs; simpl; [repeat constructor|].
+  destruct (rule_leb r y) eqn:E.
+  - constructor; [exact Hs|]. constructor. apply rule_leb_kind. exact E.
+  - inversion Hs as [|? ? Hs' Hd]; subst. constructor; [apply IH; exact Hs'|].
+    destruct l as [|z l]; simpl.
+    + constructor. apply rule_leb_false_kind. exact E.
+    + destruct (rule_leb r z) eqn:E2; constructor.
+      * apply rule_leb_false_kind. exact E.
+      * inversion Hd; assumption.
+Qed.
+
+Theorem sort_rules_kind_sorted l : kind_sorted (sort_rules l).
+Proof. unfold sort_rules. induction l as [|r l IH]; simpl; [constructor|apply insert_rule_sorted; exact IH]. Qed.
+
+Theorem sort_rules_In l x : In x (sort_rules l) <-> In x l.
+Proof.
+  unfold sort_rules. induction l as [|r l IH]; simpl; [tauto|]. rewrite insert_rule_In, IH. intuition.
+Qed.
+
+(* the first covering rule of a kind-sorted list has minimal kind among the covering rules *)
+Lemma first_cover_minimal l a b r :
+  kind_sorted l -> find (fun r => covers r a b) l = Some r ->
+  covers r a b = true /\ In r l /\ forall s, In s l -> covers s a b = true -> (kind r <= kind s)%nat.
+Proof.
+  induction l as [|x l IH]; intros Hs Hf; simpl in Hf; [discriminate|].
+  destruct (covers x a b) eqn:Ec.
+  - inversion Hf; subst x. split; [exact Ec|]. split; [left; reflexivity|].
+    intros s [<-|Hin] _; [lia|].
+    apply Sorted_StronglySorted in Hs; [|red; intros p q t H1 H2; lia].
+    inversion Hs as [|? ? _ Hall]; subst. rewrite Forall_forall in Hall. apply Hall. exact Hin.
+  - assert (kind_sorted l) as Hs' by (inversion Hs; assumption).
+    destruct (IH Hs' Hf) as [H1 [H2 H3]]. split; [exact H1|]. split; [right; exact H2|].
+    intros s [<-|Hin] Hc; [congruence|apply H3; assumption].
+Qed.
+
+(* MAIN: the lookup compiled from the writer's sorted rules gives a pair the value of the most
+   specific rule covering it (glyph-glyph before glyph-class before class-glyph before class-class),
+   and 0 when no rule covers it -- provided rules of the same kind that cover the pair agree
+   (UFO data: one entry per key, a glyph in at most one group per side) *)
+Theorem lookup_most_specific_rule_wins rules a b :
+  (forall r s, In r rules -> In s rules -> covers r a b = true -> covers s a b = true -> kind r = kind s -> kv r = kv s) ->
+  (forall r, In r rules -> covers r a b = true ->
+     (forall s, In s rules -> covers s a b = true -> (kind r <= kind s)%nat) ->
+     lookup_value (sort_rules rules) a b = kv r) /\
+  ((forall r, In r rules -> covers r a b = false) -> lookup_value (sort_rules rules) a b = qc0).
+Proof.
+  intro Huniq. rewrite (lookup_first_cover _ a b (sort_rules_kind_sorted rules)). split.
+  - intros r Hin Hc Hmin.
+    destruct (find (fun r0 => covers r0 a b) (sort_rules rules)) as [r'|] eqn:Ef.
+    + destruct (first_cover_minimal _ a b r' (sort_rules_kind_sorted rules) Ef) as [Hc' [Hin' Hmin']].
+      apply (proj1 (sort_rules_In _ _)) in Hin'. apply Huniq; try assumption.
+      assert (kind r' <= kind r)%nat by (apply Hmin'; [apply sort_rules_In; exact Hin|exact Hc]).
+      assert (kind r <= kind r')%nat by (apply Hmin; assumption). lia.
+    + exfalso. assert (In r (sort_rules rules)) as Hs by (apply sort_rules_In; exact Hin).
+      apply (find_none _ _ Ef) in Hs. congruence.
+  - intro Hnone. destruct (find (fun r0 => covers r0 a b) (sort_rules rules)) as [r'|] eqn:Ef; [|reflexivity].
+    apply find_some in Ef. destruct Ef as [Hin Hc]. apply (proj1 (sort_rules_In _ _)) in Hin. rewrite (Hnone r' Hin) in Hc. discriminate.
+Qed.
